@@ -461,13 +461,13 @@ func genPCase(kinds []string, ncMax int) func(t *rapid.T) PCase {
 var specPhasesQueue = pbt.Register(&pbt.Spec[PCase]{
 	Property: "C16", Name: "C16.phases.queue", Rule: "rapid: one Queue of any element type, " + rulePhases + rule + ruleNTPhases,
 	Gen: genPCase(queueKinds, 1),
-	Run: RunPhases, Quick: 4000, Thorough: 20000,
+	Run: RunPhases, Quick: 4000, Thorough: 20000, Replicas: 4, ReplicaEvery: 8,
 })
 
 var specPhasesStack = pbt.Register(&pbt.Spec[PCase]{
 	Property: "C16", Name: "C16.phases.stack", Rule: "rapid: one Stack (nil, empty, capacity 4, capacity 100) of any element type, " + rulePhases + rule + ruleNTPhases,
 	Gen: genPCase(stackKinds, 1),
-	Run: RunPhases, Quick: 4000, Thorough: 20000,
+	Run: RunPhases, Quick: 4000, Thorough: 20000, Replicas: 4, ReplicaEvery: 8,
 })
 
 // Two or three containers of the same type used alternately: state must not leak between objects
